@@ -329,6 +329,7 @@ def _geom(thorough):
             ('UPart', (0, 0, 0), (1, 1, 1), (2, 2, 2), False),
             ('UPart', (), (), (), False),
             ('Part', ('IP', 0, 3), ('Grid', (0.5, 1, 2.5)))]
+    out += _perturbed_geometry(thorough)
     if thorough:
         out += [('IP', 1, 1), ('IP', (0, 1), (1, 1)), ('IP', (-1, 0), (1, 1)), ('IP', 0, 4),
                 ('IP', (0, 0, 0), (1, 1, 2)), ('IP', (0, 0, 0, 0), (1, 1, 1, 1)),
@@ -344,6 +345,48 @@ def _geom(thorough):
     return out
 
 
+TINY = (1e-6, 1e-9)      # below rtol=1e-5 of np.allclose / is_uniform, and far below
+
+
+def _perturb(vec, i, delta):
+    v = list(float(x) for x in vec)
+    v[i] = v[i] + delta
+    return tuple(v)
+
+
+def _perturbed_geometry(thorough):
+    """Near-misses: objects that differ from a base object by a tiny amount in ONE float.
+
+    Equality is documented / implemented as exact, while the library also has tolerance notions
+    (approx_equals, is_uniform via allclose, isclose for nodes_on_bdry).  Every float parameter
+    of grids, interval products and partitions is perturbed at the first, an interior and the
+    last position.
+    """
+    base = (0, 1, 2, 3, 4)
+    out = [('Grid', base), ('UGrid', 0, 4, 5)]
+    deltas = TINY + ((-1e-6, 1e-1) if thorough else ())
+    for i in ((0, 1, 4) if not thorough else range(5)):
+        for d in deltas:
+            out.append(('Grid', _perturb(base, i, d)))
+    # 2-d: perturbation in one axis only
+    out += [('Grid', (0, 1, 2), (0, 0.5, 1, 1.5)),
+            ('Grid', (0, 1, 2), _perturb((0, 0.5, 1, 1.5), 1, 1e-7)),
+            ('Grid', _perturb((0, 1, 2), 1, 1e-7), (0, 0.5, 1, 1.5))]
+    # interval products
+    for d in TINY:
+        out += [('IP', 0, 1 + d), ('IP', d, 1), ('IP', (0, 0), (1, 1 + d))]
+    # partitions: uniform vs. explicitly given (perturbed) nodes / set
+    ip = ('IP', -0.5, 4.5)
+    out += [('UPart', -0.5, 4.5, 5, False), ('Part', ip, ('Grid', base))]
+    for i in (0, 2, 4):
+        for d in TINY:
+            out.append(('Part', ip, ('Grid', _perturb(base, i, d))))
+    for d in TINY:
+        out += [('Part', ('IP', -0.5, 4.5 + d), ('Grid', base)),
+                ('Part', ('IP', -0.5 - d, 4.5), ('Grid', base))]
+    return out
+
+
 def _weightings(thorough):
     out = []
     cps = [(1.0, 2.0), (2.0, 2.0), (2.0, 1.0), (2.0, INF)]
@@ -352,6 +395,9 @@ def _weightings(thorough):
     for c, p in cps:
         out += [('W', 'ConstT', c, p), ('W', 'ConstP', c, p)]
     out += [('W', 'ConstB', 2.0, 2.0), ('W', 'ConstBo', 2.0, 2.0)]
+    for d in TINY:      # tiny perturbation of the constant / of the exponent
+        out += [('W', 'ConstT', 2.0 + d, 2.0), ('W', 'ConstT', 2.0, 2.0 + d),
+                ('W', 'ConstP', 2.0 + d, 2.0)]
     for cls in ('ArrT', 'ArrP'):
         out += [('W', cls, 'A2', 2.0), ('W', cls, 'A2c', 2.0), ('W', cls, 'B2', 2.0),
                 ('W', cls, 'A2', 1.0)]
@@ -388,9 +434,13 @@ def _tensor_spaces(thorough):
            ts(2, 'complex128', 'const', 2.0), ts(2, 'float32', 'const', 2.0),
            ts((2, 2), wkind='arr', warg='A22'), ts((2, 2), wkind='arr', warg='A22c'),
            ts((2, 2), wkind='const', warg=2.0), ts(3, wkind='arr', warg='A3'),
-           ts(2, 'int64', 'const', 2.0)]
+           ts(2, 'int64', 'const', 2.0),
+           # half precision: its complex counterpart (complex64) has another real counterpart
+           ts(2, 'float16'), ts(2, 'float16', 'const', 2.0),
+           ts(2, wkind='const', warg=2.0 + 1e-9), ts(2, exponent=2.0 + 1e-9),
+           ts(2, wkind='const', warg=2.0 + 1e-6), ts(2, exponent=1.0 + 1e-6)]
     if thorough:
-        out += [ts(4), ts((1, 2)), ts((2, 1)), ts((2, 2, 2)), ts((0, 2)), ts(2, 'float16'),
+        out += [ts(4), ts((1, 2)), ts((2, 1)), ts((2, 2, 2)), ts((0, 2)),
                 ts(2, 'uint8'), ts(2, 'S2'), ts(3, 'float32'), ts(3, 'complex128'),
                 ts((2, 3), 'float32'), ts(2, exponent=1.5), ts(2, exponent=2),
                 ts(2, wkind='norm', warg='g'), ts(2, wkind='dist', warg='g'),
@@ -435,6 +485,21 @@ def _discr_spaces(thorough):
             ('TS', 3, 'float64', None, None, 2.0), None),
            ('DS', ('Part', ('IP', -1, 1), ('Grid', (-0.5, 0, 0.5))),
             ('TS', 3, 'float64', None, None, 2.0), None)]
+    out.append(ud(0, 1, 2, dtype='float16'))
+    # same tspace, partitions that differ by a tiny amount in one node / one end point
+    t5 = ('TS', 5, 'float64', None, None, 2.0)
+    ip = ('IP', -0.5, 4.5)
+    base = (0, 1, 2, 3, 4)
+    out += [('DS', ('UPart', -0.5, 4.5, 5, False), t5, None),
+            ('DS', ('Part', ip, ('Grid', base)), t5, None)]
+    for i in (0, 2, 4):
+        out.append(('DS', ('Part', ip, ('Grid', _perturb(base, i, 1e-6))), t5, None))
+    out += [('DS', ('Part', ('IP', -0.5, 4.5 + 1e-6), ('Grid', base)), t5, None),
+            ud(0, 1 + 1e-6, 2, weighting=0.5), ud(1e-9, 1, 2, weighting=0.5)]
+    if thorough:
+        for d in TINY:
+            out.append(('DS', ('Part', ip, ('Grid', _perturb(base, 1, d))), t5, None))
+            out.append(('DS', ('Part', ('IP', -0.5 - d, 4.5), ('Grid', base)), t5, None))
     if thorough:
         out += [ud(0, 1.5, 3), ud(0, 1, 1), ud(0, 4, 2), ud(0, 1, 2, dtype='int64'),
                 ud(0, 1, 2, dtype='complex64'), ud(0, 1, 2, exponent=1.0, weighting=2.0),
@@ -567,7 +632,8 @@ def field_of_dtype(dtype):
 
 
 REAL_OF = {'complex64': 'float32', 'complex128': 'float64'}
-COMPLEX_OF = {'float32': 'complex64', 'float64': 'complex128'}
+# numpy has no half-precision complex type: complex64 is the smallest one that holds float16
+COMPLEX_OF = {'float16': 'complex64', 'float32': 'complex64', 'float64': 'complex128'}
 
 
 def counterpart(dtype, which):
